@@ -425,6 +425,16 @@ func init() {
 				";best=" + show(dt.GetBest())
 		}))
 	}
+	// direct predicate (large BMP maps, format 4): Encode either refuses the map (panics: it does not fit
+	// the 64 KiB subtable) or the written subtable, read by an independent OpenType format 4 lookup, gives
+	// the map at every code 0..0xFFFF.  The Lean side answers "ok"; nothing large travels through the line.
+	ops["cmapx.big4"] = func(f Fields) string {
+		cls, _ := cxBig4Class(f)
+		if cls == "refused" || cls == "faithful" {
+			return "ok"
+		}
+		return cls
+	}
 	ops["cmapx.install"] = func(f Fields) string {
 		return cxPanic(guard(func() string {
 			font := &sfnt.Font{}
@@ -804,6 +814,136 @@ func cxGenTable(r *Rng, c *Ctx) cmap.Table {
 
 func cxTabArg(t cmap.Table) string { return cxShowTab(t) }
 
+// cxBig4Map: `blocks` blocks of `size` consecutive codes with irregular glyph ids (no common delta), each
+// followed by `gap` unmapped codes; block number `longat` (if >= 0) has `long` codes instead.
+func cxBig4Map(f Fields) cmap.Format4 {
+	blocks, size, gap, longat, long, mul := f.Int("blocks"), f.Int("size"), f.Int("gap"), f.Int("longat"), f.Int("long"), f.Int("mul")
+	m := cmap.Format4{}
+	c := f.Int("base")
+	for b := 0; b < blocks && c <= 0xFFFF; b++ {
+		n := size
+		if b == longat {
+			n = long
+		}
+		for j := 0; j < n && c <= 0xFFFF; j++ {
+			m[uint16(c)] = glyph.ID(1 + (c*mul)%60000)
+			c++
+		}
+		c += gap
+	}
+	return m
+}
+
+// cxSpec4 is an independent format 4 lookup written from the OpenType specification: binary search for
+// the first segment whose endCode >= c; startCode > c: missing glyph; idRangeOffset = 0: (c + idDelta)
+// mod 65536; otherwise the glyph index is read at
+// &idRangeOffset[i] + idRangeOffset[i] + 2*(c - startCode[i]), and idDelta is added to it unless it is 0.
+func cxSpec4(data []byte, c int) (int, bool) {
+	u16 := func(p int) (int, bool) {
+		if p < 0 || p+2 > len(data) {
+			return 0, false
+		}
+		return int(data[p])<<8 | int(data[p+1]), true
+	}
+	sx2, ok := u16(6)
+	if !ok || sx2%2 != 0 {
+		return 0, false
+	}
+	n := sx2 / 2
+	endP, startP := 14, 14+sx2+2
+	deltaP, roP := startP+sx2, startP+2*sx2
+	lo, hi := 0, n
+	for lo < hi {
+		mid := (lo + hi) / 2
+		e, ok := u16(endP + 2*mid)
+		if !ok {
+			return 0, false
+		}
+		if e >= c {
+			hi = mid
+		} else {
+			lo = mid + 1
+		}
+	}
+	if lo == n {
+		return 0, true
+	}
+	st, ok1 := u16(startP + 2*lo)
+	d, ok2 := u16(deltaP + 2*lo)
+	ro, ok3 := u16(roP + 2*lo)
+	if !ok1 || !ok2 || !ok3 {
+		return 0, false
+	}
+	if st > c {
+		return 0, true
+	}
+	if ro == 0 {
+		return (c + d) & 0xFFFF, true
+	}
+	g, ok := u16(roP + 2*lo + ro + 2*(c-st))
+	if !ok {
+		return 0, false
+	}
+	if g == 0 {
+		return 0, true
+	}
+	return (g + d) & 0xFFFF, true
+}
+
+// cxBig4Class runs Format4.Encode on the described map: "refused" (the documented panic), "faithful"
+// (independent lookup = map at all 65536 codes), or "unfaithful:<code>:<got>:<want>" / "panic:<msg>".
+func cxBig4Class(f Fields) (string, int) {
+	m := cxBig4Map(f)
+	var enc []byte
+	res := guard(func() string {
+		enc = m.Encode(uint16(f.Int("lang")))
+		return "encoded"
+	})
+	if strings.HasPrefix(res, "panic:") {
+		if strings.Contains(res, "too many mappings for a format 4 subtable") {
+			return "refused", len(m)
+		}
+		return strings.ReplaceAll(res, " ", "_"), len(m)
+	}
+	if len(enc) >= 8 {
+		// a reader walks the segment arrays through segCountX2; the search fields must follow from it
+		sx2 := int(enc[6])<<8 | int(enc[7])
+		if sx2 < 2 || 16+4*sx2 > len(enc) {
+			return fmt.Sprintf("unfaithful:segCountX2=%d:len=%d", sx2, len(enc)), len(m)
+		}
+	}
+	for c := 0; c <= 0xFFFF; c++ {
+		got, ok := cxSpec4(enc, c)
+		want := int(m[uint16(c)])
+		if !ok {
+			return fmt.Sprintf("unfaithful:%d:read-outside-subtable:%d", c, want), len(m)
+		}
+		if got != want {
+			return fmt.Sprintf("unfaithful:%d:%d:%d", c, got, want), len(m)
+		}
+	}
+	return "faithful", len(m)
+}
+
+// cxCaseBig4: BMP maps around and beyond what a 64 KiB format 4 subtable can hold (explicit glyphIdArray
+// entries beyond the reach of a 16-bit idRangeOffset).
+func cxCaseBig4(c *Ctx, r *Rng, k int) {
+	var args string
+	switch k % 3 {
+	case 0: // 2621 blocks of 20 irregular codes: > 52000 glyphIdArray entries, must be refused
+		args = fmt.Sprintf("blocks=2621 size=20 gap=5 longat=-1 long=0 base=0 mul=%d lang=%d", Pick(r, []int{7919, 7907, 104729}), r.Intn(3))
+	case 1: // one 1200-long block across the point where 2*(segments+entries) passes 65535
+		args = fmt.Sprintf("blocks=2600 size=20 gap=5 longat=%d long=1200 base=0 mul=7919 lang=0", r.Range(1480, 1500))
+	case 2: // just inside / just outside the reach of idRangeOffset
+		args = fmt.Sprintf("blocks=%d size=20 gap=5 longat=-1 long=0 base=%d mul=7919 lang=0", r.Range(1540, 1580), r.Intn(50))
+	}
+	fl := parseFields(args)
+	cls, n := cxBig4Class(fl)
+	c.Stat("big4_outcome", strings.SplitN(cls, ":", 2)[0])
+	c.Stat("big4_map_size", bucket(n))
+	c.Case(Direct, "cmapx.big4", args, true)
+}
+
 func cxBigMap(f Fields) cmap.Format12 {
 	n, base, step, g0, mul := f.Int("n"), f.Int("base"), f.Int("step"), f.Int("g0"), f.Int("mul")
 	m := make(cmap.Format12, n)
@@ -843,6 +983,9 @@ func areaCmapx(c *Ctx) {
 	for i := 0; i < c.N; i++ {
 		if i%1000 == 0 {
 			cxCaseBig12(c, r, i/1000)
+		}
+		if i%2000 == 500 {
+			cxCaseBig4(c, r, i/2000)
 		}
 		switch i % 4 {
 		case 0:
